@@ -34,8 +34,8 @@ NO_ASSOC = {"NormalizedSum"}
 
 
 def grids(tier: str, seed: int):
-    n_pair = 6 if tier == "quick" else 8
-    n_trip = 4 if tier == "quick" else 6
+    n_pair = 6 if tier == "quick" else 9
+    n_trip = 4 if tier == "quick" else 7
     pair = [i / 2**n_pair for i in range(2**n_pair + 1)]
     trip = [i / 2**n_trip for i in range(2**n_trip + 1)]
     u = seed_phase(seed)
